@@ -846,4 +846,5 @@ EVIDENCE = {"C07": {
                     "a file my strict parser rejects but the lenient reader accepts is probe-counted only",
                     "the public API is driven with path names (SimFS paths), not in-memory streams"],
 }}
-REQUIRED_PROBES = {"C07": ["must_raise_judged", "damaged_exact_judged", "per_recording_degrees_alone"]}
+REQUIRED_PROBES = {"C07": ["must_raise_judged", "damaged_exact_judged", "per_recording_degrees_alone",
+                           "per_recording_values_as_iter", "per_recording_values_as_cycle"]}
